@@ -8,6 +8,8 @@ import Setec.Driver.LookupDrv
 import Setec.Driver.BackupDrv
 import Setec.Driver.FieldsDrv
 import Setec.Driver.UpdaterDrv
+import Setec.Driver.ConcDrv
+import Setec.Driver.ConcStoreDrv
 import Setec.Generated.Facts
 open Setec.Driver
 
@@ -80,6 +82,16 @@ def main (args : List String) : IO UInt32 := do
     let st ← loop stdin updaterLine {} 1
     printCover st.cover
     IO.println s!"SUMMARY family=updater steps={st.cases} clause_evals={st.cases * 7} propfail={st.fails} diverge={st.diverges}"
+    return 0
+  | ["conc"] =>
+    let st ← loop stdin concLine {} 1
+    printCover st.cover
+    IO.println s!"SUMMARY family=conc steps={st.cases} clause_evals={st.nodes} propfail={st.fails} diverge={st.diverges}"
+    return 0
+  | ["concstore"] =>
+    let st ← loop stdin concStoreLine {} 1
+    printCover st.cover
+    IO.println s!"SUMMARY family=concstore steps={st.cases} clause_evals={st.cases * 9} propfail={st.fails} diverge=0"
     return 0
   | ["fs"] =>
     let st ← loop stdin fsLine {} 1
